@@ -220,3 +220,12 @@ for _k, _extra in {
     "C20": "One item of every collection carries the same label in a third of the specifications.",
 }.items():
     CHECKS[_k]["text"] += " " + _extra
+for _k, _extra in {
+    "C05": "Index-dependent cases are also fitted in situ: data simulated as matrix[i] @ clp_i per index (ascending, descending, unsorted axes) leave no residual.",
+    "C08": "The two datasets of an unlinked group have different global axes in half of the probes.",
+    "C11": "A later-built parameter set stays alive during the round trips of an earlier one.",
+    "C14": "Non-negative rates; an at-truth fit interrupted at the third evaluation still reports the generating parameters.",
+    "C16": "Infinite standard errors.",
+    "C19": "One io plugin object is falsy.",
+}.items():
+    CHECKS[_k]["text"] += " " + _extra
